@@ -283,6 +283,9 @@ class Client(BaseComponent):
 
     @handler('write')
     def write(self, data):
+        if not self._connected:
+            # nobody to write to; keep the closed socket out of the poller
+            return
         if not self._poller.isWriting(self._sock):
             self._poller.addWriter(self, self._sock)
         self._buffer.append(data)
